@@ -30,11 +30,17 @@ F["F1"] = ("C01", "lossy", {}, [S(0, ("A", "C")), *SYNC, INS(1 - 1, "S"), T(), M
 F["F2"] = ("C08", "vis", {"vis": 1}, [S(0, ("A",)), *SYNC, VIS(0, 0, False), DES(0), T(), DU(), CF()])
 F["F3"] = ("C03", "structural", {}, [S(0, ("A",)), *SYNC, REM(0, "A"), T(False), DES(0), T(), DU(), CF()])
 F["F9"] = ("C03", "structural", {}, [S(0, ("A", "S")), *SYNC, REM(0, "A"), T(False), REM(0, "S"), T(), DU(), CF()])
-F["F8"] = ("C03", "structural", {"refs": True}, [S(1, ("A",)), {"SetRef": {"slot": 1, "target": 0}}, S(0, ("A",)), {"SetRef": {"slot": 1, "target": 0}}, T(), DU(), CF()])
-F["F11"] = ("C11", "related", {"children": True, "sync": True}, [S(0, ("A",)), *SYNC])
-F["F16"] = ("C09", "faults", {"faults": True}, [S(0, ("A",)), *SYNC, REM(0, "A"), T(False), "ServerRestart", DES(0)])
+F["F8"] = ("C03", "structural", {"refs": True}, [S(0, ()), S(1, ()), {"SetRef": {"slot": 1, "target": 0}}, INS(0, "A"), T(), DU(), CF()])
+F["F11"] = ("C11", "related", {"children": True, "sync": True}, [S(0, ("A",)), S(1, ("A",)), {"SetParent": {"slot": 1, "parent": 0}}, *SYNC])
+F["F16"] = ("C09", "faults", {"faults": True}, [S(0, ("A",)), *SYNC, REM(0, "A"), T(False), "ServerStop", DES(0), T(False), "ServerStart"])
 F["F18"] = ("C07", "auth", {"clients": 2}, [S(0, ()), *SYNC, {"Connect": {"client": 1}}])
 F["F21"] = ("C08", "vis", {"vis": 2}, [S(1, ("A",)), VIS(0, 1, True), T(), VIS(0, 1, False), VIS(0, 1, True), VIS(0, 1, False)])
+# F22: client event queue recycles non-empty buffers across sessions
+def ES(kind="Dep", mode=0, target=0, refslot=0): return {"EmitS": {"kind": kind, "mode": mode, "target": target, "refslot": refslot}}
+def DSE(c=0): return {"DeliverSEv": {"client": c, "chan": 0, "idx": 0}}
+F["F22"] = ("C09", "faults", {"faults": True, "events": True},
+            [S(0, ("A",)), *SYNC, INS(0, "S"), ES(), T(), DSE(), CF(), {"Disconnect": {"client": 0}}, {"Connect": {"client": 0}}, *SYNC,
+             INS(0, "B"), ES(), T(), DSE(), CF(), DU(), CF(), CF()])
 # known findings (replayed with the generator exclusions switched off)
 F["F4"] = ("C01", "periodic", {"periodic": True, "period": 3, "no_exclusions": True},
            [S(0, ("A", "P")), *SYNC, *SYNC, *SYNC, MU(0, "A"), MU(0, "P"), *SYNC, *SYNC])
@@ -55,7 +61,7 @@ for name, (prop, unit, over, steps) in F.items():
 OTHER = {
  "F5a": ("C06", "exh2_0_0", {"authorized": False, "chan": 0, "bytes": [1, 1]}),
  "F5b": ("C06", "exh_trigger", {"authorized": False, "chan": 1, "bytes": [255, 255, 255, 255, 255, 255, 255, 255, 127]}),
- "F6a": ("C12", "history", {"start": 0, "ops": [{"Confirm": 2}, {"Confirm": 64}, {"Query": -1}], "counts": [1, 1, 1, 1, 1, 1, 1]}),
+ "F6a": ("C12", "history", {"start": 0, "ops": [{"Confirm": 2}, {"Confirm": 64}, {"Query": -2}], "counts": [1, 1, 1, 1, 1, 1, 1]}),
  "F6b": ("C12", "history", {"start": 0, "ops": [{"Confirm": 70}, {"Range": [-63, 63]}], "counts": [1, 1, 1, 1, 1, 1, 1]}),
  "F7": ("C17", "batches", {"batches": [{"down": True, "msgs": [[0, 10]] * 16}, {"down": False, "msgs": [[0, 10]] * 16}]}),
  "F10": ("C15", "decode_random", [1, 255, 255, 255, 255, 15]),
